@@ -23,6 +23,7 @@ INVARIANT NoSilentDropAtQuiescence
 INVARIANT OneActiveSession
 INVARIANT NoLeftovers
 INVARIANT MailboxExclusive
+INVARIANT NoLostInFlight
 INVARIANT SlotsRegistered
 INVARIANT WantsMatch
 INVARIANT UsurpedWasReplaced
